@@ -83,6 +83,22 @@ def simcore_oracle(case, obs):
             if (e[0], e[1]) == key and e[5] > x:
                 out.append(("n%d incarnation %d read a clock in event %d, after it was crashed/bounced in event %d" % (key[0], key[1], e[5], x), None))
                 break
+    # workers started synchronously by the software factory (spawn_local and tokio::spawn) run in every
+    # incarnation that gets at least one step
+    lw = {(x[0], x[1]) for x in obs.get("local_worker_runs", [])}
+    sw_ = {(x[0], x[1]) for x in obs.get("spawn_worker_runs", [])}
+    for d in incs:
+        if d["client"] or not d["prog"].get("factory_workers"):
+            continue
+        x = d["killed_ev"] if d["killed_ev"] is not None else len(evinfo)
+        polled = any(evinfo[i]["name"] == "step" and evinfo[i]["o"]["r"].startswith("ok") for i in range(d["start_ev"] + 1, min(x, len(evinfo))))
+        if not polled:
+            continue
+        key = (d["host"], d["inc"])
+        for nm, got in (("spawn_local", lw), ("tokio::spawn", sw_)):
+            if key not in got:
+                out.append(("n%d incarnation %d (started in event %d): the worker its software factory started with %s never ran" % (
+                    d["host"], d["inc"], d["start_ev"], nm), None))
     # probes: a crashed host is not running, has no live guard; others as expected
     dead = {}
     nreg = 0
@@ -476,8 +492,12 @@ def gen_core_case(rng):
     for _ in range(rng.choice([1, 2, 2, 3, 4])):
         client = rng.random() < 0.2
         kinds.append(client)
-        mk = lambda: F.gen_prog(rng, tick, end=rng.choice(["never", "never", "never", "ok"]), ticker=rng.random() < 0.8,
-                                tasks=rng.choice([0, 1, 2, 3]), nops=rng.randrange(0, 6))
+        def mk():
+            p = F.gen_prog(rng, tick, end=rng.choice(["never", "never", "never", "ok"]), ticker=rng.random() < 0.8,
+                           tasks=rng.choice([0, 1, 2, 3]), nops=rng.randrange(0, 6))
+            if rng.random() < 0.4:
+                p["factory_workers"] = True
+            return p
         if client:
             script.append(["client", mk()])
         else:
@@ -507,6 +527,33 @@ def core_sel(rng, hs):
         r = rng.random()
         return {"h": h} if r < 0.5 else ({"ip": h} if r < 0.7 else {"re": "^n%d$" % h})
     return {"re": "^n(%s)$" % "|".join(str(h) for h in hs)}
+
+
+def gen_factory_points():
+    """Hosts whose software factory closure itself spawns the workers (spawn_local + tokio::spawn) before it
+    returns the async block: first start, bounce without crash, crash + bounce, repeated cycles."""
+    out = []
+    for tick in (1 * MS, 2 * MS):
+        for i in range(0, 5):
+            for what in ("none", "bounce", "crash-bounce", "cycles", "regex-both"):
+                p = {"main": [["obs"], ["sleep", 2 * MS], ["obs"]], "end": "never", "ticker": True, "factory_workers": True,
+                     "tasks": [{"ops": [["sleep", 3 * MS], ["obs"]], "end": "never"}]}
+                q = dict(p, factory_workers=False)
+                script = [["host", [p]], ["host", [q, p]]] + [["step"]] * i
+                if what == "bounce":
+                    script += [["bounce", {"h": 0}], ["probe"]]
+                elif what == "crash-bounce":
+                    script += [["crash", {"ip": 0}], ["step"], ["bounce", {"h": 0}], ["probe"]]
+                elif what == "cycles":
+                    for _ in range(3):
+                        script += [["bounce", {"re": "^n0$"}], ["step"], ["step"], ["crash", {"h": 0}], ["bounce", {"h": 0}], ["step"]]
+                    script += [["probe"]]
+                elif what == "regex-both":
+                    script += [["bounce", {"re": "^n[01]$"}], ["probe"]]
+                script += [["step"]] * 4 + [["probe"]]
+                cfg = {"tick_ns": tick, "duration_ns": 1000 * MS, "epoch_ns": 17, "random_order": i % 2 == 0, "seed": i}
+                out.append({"cfg": cfg, "script": script, "fam": "simcore", "flavour": "core-factory-workers"})
+    return out
 
 
 def gen_core_points():
@@ -572,6 +619,7 @@ class Spec(PropSpec):
         core = gen_core_points() + [gen_core_case(rng) for _ in range(n)]
         if quick:
             core = rng.sample(gen_core_points(), 60) + core[len(gen_core_points()):]
+        core = gen_factory_points() + core
         net = []
         combos = [(1, 1, {"h": 0}), (2, 1, {"ip": 0}), (1, 3, {"re": "^n0$"}), (1, 1, {"h": 1}), (1, 2, {"re": "^n[01]$"})]
         for (tick, lat, who) in combos:
